@@ -707,7 +707,7 @@ for ns in (1, 2, 3, 4, 5, 6, 7, 8, 13, 100, 1000003, (1 << 29) - 1, 1 << 29):
         # nside 1, 2: one harness per latitude band (quick); other nside: additionally split by base-cell column (thorough)
         for quad in ((255,) if ns <= 2 else (0, 1, 2, 3)):
             _c11.append(H('c11_point_%s_n%d%s' % (bn, ns, '' if quad == 255 else '_q%d' % quad), 'k_c11_point(%d, %s, %d, %d);' % (ns, _C11_ROLE, band, quad),
-                          tiers=(Q if ns <= 2 else T), timeout=2400, mem_gb=8, unwind=3, stubs=_PLANE_CUT('verif_c11'),
+                          tiers=(Q if (ns == 1 or (ns == 2 and band != 1)) else T), timeout=(2400 if ns <= 2 and band != 1 else 3600), mem_gb=8, unwind=3, stubs=_PLANE_CUT('verif_c11'),
                           inputs=[('x', 'f64'), ('y', 'f64')], replay='c11_pullback', replay_const={'nside': ns},
                           covers=['last base cell column', 'first base cell column'] if quad == 255 else ['east part of the column', 'west part of the column'],
                           domain='nside %d: every double point of the HEALPix image with y in the %s band%s, polar base-cell borders included' % (
@@ -731,8 +731,8 @@ PROPS['C11'] = dict(
     harnesses=_c11, libm=True,
     functions=['ring::hash', 'ring::hash_with_dxdy', 'ring::hash_with_dldh', 'ring::deal_with_1x1_box', 'ring::dldh_to_dxdy', 'ring::center_of_projected_cell',
                'ring::polar_cap_ring_index', 'ring::sph_coo', 'ring::center', 'ring::vertices', 'ring::check_hash', 'ring::triangular_number_x4'],
-    bounds={'quick': 'nside in {1, 2, 3, 5}: every image point (range, offsets, containment), every cell (centre round trip, sph_coo), every consecutive pair (order); guards at nside 3',
-            'thorough': 'adds nside in {4, 7, 8, 13, 2^29-1, 2^29} (nside 6, 100, 1000003: tier extended; harnesses that exceed a cap are reported UNDECIDED)'},
+    bounds={'quick': 'every image point (range, offsets, containment; polar base-cell borders included and also alone) at nside 1 and, for the polar bands, nside 2; every cell (centre round trip, sph_coo) at nside 1, 2, 3, 5; every consecutive pair (order) at nside 1, 2, 3; guards at nside 3',
+            'thorough': 'adds the equatorial band at nside 2, image points at nside 3, 5 split by base-cell column, centres / order at nside 4, 5, 7, 8, 13, order at 2^29-1, 2^29 (other nside: tier extended; harnesses that exceed a cap are reported UNDECIDED)'},
     outside='other nside values; the composition with the real proj / unproj (the plane cut): decided separately in C17 (image, reference formulae) and evaluated by the native oracle on replay',
     assumptions=_LIBM_ASSUME + ['plane cut: proj returns an arbitrary point of the HEALPix image (guarantee I of C17, slack 2^-50), unproj is the identity on the plane with its domain assertion kept'],
 )
@@ -751,8 +751,8 @@ for _d in range(30):
     for part, pn in ((0, 'centre'), (1, 'offset'), (2, 'vertices')):
         # the offset round trip (sph_coo then hash_with_dxdy of an arbitrary interior offset) needs real-arithmetic reasoning on the
         # scaled coordinates: 25+ min at depth 0, thorough tier only
-        tq = (Q if _d in (0, 1, 2, 29) else T) if part != 1 else (T if _d in (0, 1) else X)
-        _c03.append(H('c03_%s_d%d' % (pn, _d), 'k_c03_cell(%d, %d);' % (_d, part), tiers=tq, timeout=2400, mem_gb=8, unwind=3, unwindset=_c03_us(_d), stubs=_C03_INTERIOR(),
+        tq = (Q if _d in (0, 1, 2) else T) if part != 1 else (T if _d in (0, 1) else X)   # depth 29: 35+ min per harness, thorough
+        _c03.append(H('c03_%s_d%d' % (pn, _d), 'k_c03_cell(%d, %d);' % (_d, part), tiers=tq, timeout=(2400 if _d < 17 else 4800), mem_gb=8, unwind=3, unwindset=_c03_us(_d), stubs=_C03_INTERIOR(),
                       inputs=[('h', 'u64'), ('dxk', 'u32'), ('dyk', 'u32')], replay='c03_cell', replay_const={'depth': _d},
                       covers=['cell at the north pole', 'west half of base cell 4 (negative x before wrapping)'] if _d > 0 else ['cell at the north pole'],
                       domain='depth %d: every cell%s (plane cut): %s' % (_d, ', offsets k/1024 with k symbolic in 1..=1023' if part == 1 else '', pn)))
@@ -787,10 +787,10 @@ PROPS['C03'] = dict(
     functions=['Layer::center_of_projected_cell', 'Layer::center', 'Layer::sph_coo', 'Layer::vertex', 'Layer::vertices', 'Layer::vertices_map',
                'Layer::path_along_cell_side', 'Layer::path_along_cell_edge', 'Layer::grid', 'Layer::hash_with_dxdy', 'Layer::shift_rotate_scale',
                'discretize', 'Layer::depth0_bits', 'Layer::build_hash', 'Layer::check_hash'],
-    bounds={'quick': 'cell centres (plane oracle, hash back with offsets 0.5) and vertices (three accessors) at depths 0, 1, 2, 29; paths and grid at depth 0 (3 segments per side, 3x3 grid); '
+    bounds={'quick': 'cell centres (plane oracle, hash back with offsets 0.5) and vertices (three accessors) at depths 0, 1, 2; paths and grid at depth 0 (3 segments per side, 3x3 grid); '
                      'every image point: cell number in range and offsets in [0, 1] up to rounding (north / equatorial bands at depths 0, 1, 29; south band at depth 29); image points of the polar bands '
                      'with an offset equal to 1 or below 0 (polar base-cell borders, poles, rounding) at depth 1: the cell contains the point (per base cell of the result); guards at depth 2',
-            'thorough': 'adds centres / vertices at depths 3, 8, 16, 17, 28; the interior-offset round trip at depths 0, 1; paths at depths 2, 29; the border-case containment for every band / base cell at depths 0, 1; '
+            'thorough': 'adds centres / vertices at depths 3, 8, 17, 29; the interior-offset round trip at depths 0, 1; paths at depths 2, 29; the border-case containment for every band / base cell at depths 0, 1; '
                         'the sph_coo inverse for generic offsets at depth 0 (3 of the 20 band x base-cell classes; 25+ min each, often undecided); the range clause at depths 2, 8, 16, 28 and the south band at depths 0, 1'},
     outside='quick tier: "sph_coo inverts hash_with_dxdy" for generic offsets and the interior-offset round trip (real-arithmetic reasoning on the scaled coordinates: thorough tier, and the native oracle on replay); the composition with the real proj / unproj within ulps of a cell border and the 1e-13 rad figure near the poles (they depend on the actual libm values; C17 bounds the pair '
             'separately); the clause "the cell given by hash" (hash_v2 vs hash_with_dxdy) is evaluated by the native oracle on replay only; other path segment counts',
@@ -804,9 +804,9 @@ for _d in range(30):
     for reg in (0, 1):
         for bits in (4, 8):
             # 17 x 17 lattice: quick at depths 0, 1, 2, 29; 257 x 257 lattice: thorough (20-40 min per harness)
-            tq = (Q if _d in (0, 1, 2, 29) else T) if bits == 4 else T
+            tq = (Q if (_d in (0, 1, 2) or (_d == 29 and reg == 1)) else T) if bits == 4 else T   # any_d29: 40+ min, thorough
             _c19.append(H('c19_%s_d%d%s' % ('any' if reg == 0 else 'corner', _d, '' if bits == 4 else '_fine'), 'k_c19_cell(%d, %d, %d);' % (_d, reg, bits), tiers=tq,
-                          timeout=2400 if bits == 4 else 3600, mem_gb=10,
+                          timeout=(2400 if _d < 17 else 4800) if bits == 4 else 3600, mem_gb=10,
                           unwind=4, unwindset={'verif_common::*': max(6, _d + 1), 'nested::verif_c19::*': 10, 'compass_point::*': 10},
                           stubs=[('crate::nested::Layer::hash_with_dxdy', 'crate::nested::verif_c19::stub_hash_with_dxdy')],
                           inputs=[('h', 'u64'), ('a', 'u16'), ('b', 'u16')], replay='c19_cell',
@@ -817,7 +817,7 @@ PROPS['C19'] = dict(
     inject=[dict(host='src/nested/mod.rs', mod='verif_c19', parts=['props/c19.rs', 'kani/c19.rs'])],
     harnesses=_c19,
     functions=['Layer::bilinear_interpolation', 'Layer::neighbours', 'MainWindMap::get'],
-    bounds={'quick': 'depths 0, 1, 2, 29: every cell x the 17 x 17 lattice of offsets k/16 (incl. 0, 0.5, 1); separately restricted to the cells lacking a cardinal neighbour', 'thorough': 'adds depths 3, 8, 16, 17, 28 on the 17 x 17 lattice and depths 0, 1 on the 257 x 257 lattice (other depths: tier extended)'},
+    bounds={'quick': 'depths 0, 1, 2: every cell x the 17 x 17 lattice of offsets k/16 (incl. 0, 0.5, 1); separately restricted to the cells lacking a cardinal neighbour (also at depth 29)', 'thorough': 'adds every cell at depth 29, depths 3, 8, 17 on the 17 x 17 lattice and depths 0, 1 on the 257 x 257 lattice (other depths: tier extended)'},
     outside='offsets that are not multiples of 1/16 (quick) / 1/256 (thorough) (arbitrary doubles make the 32 weight products of the code a 45 M clause instance); the computation of the cell and '
             'offsets from the position (hash_with_dxdy, decided by C03)',
     assumptions=['cut at Layer::hash_with_dxdy: it returns the cell number and offsets chosen by the harness (every cell in range, offsets in [0, 1] on the 1/256 lattice)',
@@ -833,20 +833,20 @@ X = ('extended',)
 _KEEP_T = {
     'C01': r'^c01_e2e_d(4|8|16|17|29)$|^c01_r_npc_',
     'C02': r'.',
-    'C03': r'^c03_(centre|vertices)_d(3|8|16|17|28)$|^c03_offset_d(0|1)$|^c03_path_d(2|29)$|^c03_border_\w+_d(0|1)$|^c03_inv_(npc_b0|eqr_b5|spc_b10)_d0$|^c03_range_\w+_d(0|1|2|8|16|28)$',
+    'C03': r'^c03_(centre|vertices)_d(3|8|17|29)$|^c03_offset_d(0|1)$|^c03_path_d(2|29)$|^c03_border_\w+_d(0|1)$|^c03_inv_(npc_b0|eqr_b5|spc_b10)_d0$|^c03_range_\w+_d(0|1|2|8|16|28)$',
     'C04': r'^c04_pair_d(4|8|16|17|24)$',
     'C06': r'.',
     'C07': r'^(?!c07_(or|xor)_(1_2|2_1)_)',
     'C08': r'^(?!c08_(or_2_1|xor_1_2)_)',
     'C09': r'^(?!c09_views_\w+_3_dm1$)',
     'C10': r'_d(3|5|8|16|17|28)$|^c10_ringends_[ns]_(d26_k67108800|d29_k536870848|d29_k402653184)$',
-    'C11': r'^c11_(center|order)_n(4|5|7|8|13|536870911|536870912)$|^c11_point_\w+_n(3|5)_q\d$',
+    'C11': r'^c11_(center|order)_n(4|5|7|8|13|536870911|536870912)$|^c11_point_\w+_n(3|5)_q\d$|^c11_point_eqr_n2$',
     'C14': r'^c14_(internal|parts|dirs)_|^c14_(external|struct)_d0_dd1$|^c14_guard_0$',
     'C15': r'^(?!c15_fixed_)|^c15_fixed_(d1_cap2_m2)$',
     'C16': r'.',
     'C17': r'.',
     'C18': r'.',
-    'C19': r'_d(3|8|16|17|28)$|_d(0|1)_fine$',
+    'C19': r'_d(3|8|17)$|^c19_any_d29$|_d(0|1)_fine$',
 }
 for _pid, _p in PROPS.items():
     _rx = _re.compile(_KEEP_T.get(_pid, '.'))
